@@ -8,7 +8,7 @@ from .. import corpus, pipeline, runner, families
 from . import common
 
 PROP = "C01"
-JOB_TIMEOUT_S = {"quick": 90, "thorough": 400}
+JOB_TIMEOUT_S = {"quick": 45, "thorough": 400}
 
 
 def list_jobs(tier):
@@ -30,6 +30,10 @@ def get_program(job):
 
 
 def run_job(job, tier):
+    from .. import onnx_sem, jax_sem
+
+    # quick tier: programs with large constants / intermediates are outside the element bound
+    onnx_sem.MAX_ELEMS = jax_sem.MAX_ELEMS = 6000 if tier == "quick" else 20000
     try:
         p = get_program(job)
     except corpus.OutOfBound as e:
@@ -75,6 +79,7 @@ def evidence_coverage(results, tier):
             "max_distinct_queries_per_program": options(tier).max_queries,
             "loop_unroll": options(tier).unroll,
             "max_input_elements": options(tier).max_input_elems,
+            "max_tensor_elements": 6000 if tier == "quick" else 20000,
             "symbol_binding": "every named dimension bound to 3 (C04 varies it)",
             "float_theory": "Real with shared uninterpreted transcendentals; comparator |a-b| > 1e-3(1+|b|)",
             "int_theory": "Int with explicit two's-complement wrap",
